@@ -126,6 +126,21 @@ func (o *Out) Line(c, impl string) {
 	o.n++
 }
 
+// Try runs fn — which calls the implementation and renders what it observed — and writes the case
+// line; a panic of the implementation is the observation "panic" (the oracle rejects it), not a
+// crash of the harness that would leave the check without the failing input.
+func (o *Out) Try(c string, fn func() string) {
+	impl := func() (s string) {
+		defer func() {
+			if p := recover(); p != nil {
+				s = "panic"
+			}
+		}()
+		return fn()
+	}()
+	o.Line(c, impl)
+}
+
 // Pending records, durably, which scenario is about to run ("?? desc"): if the implementation
 // (or the harness) crashes the process before the scenario's case line is written, the check
 // reports that scenario as the failing input. The line is ignored otherwise.
